@@ -51,7 +51,10 @@ func checkMerge(res []string, p mergeParts, isPermit func(string) bool, appendAt
 		return -1
 	}
 	// relative order inside each part
-	for name, part := range map[string][]string{"ipv4": p.v4, "ipv6": p.v6, "raw": p.pre, "raw[APPEND]": p.app} {
+	// (the raw file is one part: its prepended entries followed by its
+	// [APPEND] entries)
+	rawAll := append(append([]string{}, p.pre...), p.app...)
+	for name, part := range map[string][]string{"ipv4": p.v4, "ipv6": p.v6, "raw": rawAll} {
 		at := 0
 		for _, e := range part {
 			i := pos(e, at)
